@@ -667,6 +667,100 @@ func ruleR3b(c *Ctx) {
 		}
 	}
 	c.check(n >= 2, "R3b", "stores", token.NoPos, fmt.Sprintf("%d stores of a dispatch state analysed", n))
+	// the dispatcher itself: its caller ignores the dispatcher's verdict while the object is still in the dispatch
+	// state, so the dispatcher may report a non-zero verdict only after it has stored a typed state: every verdict it
+	// returns is the constant 0 or the verdict of a typed parser called after a store to the state field
+	nd := 0
+	for _, f := range streamingFuncs(c, e) {
+		for _, cl := range f.AnonFuncs {
+			ei := errResultIndex(cl)
+			if ei < 0 || bufParam(cl) == nil {
+				continue
+			}
+			// state stores of the closure
+			var stores []*ssa.Store
+			for _, b := range cl.Blocks {
+				for _, ins := range b.Instrs {
+					if st, ok := ins.(*ssa.Store); ok {
+						if fa, ok := st.Addr.(*ssa.FieldAddr); ok && strings.HasSuffix(fieldCell(fa), ".state") {
+							if _, isC := constIntOf(st.Val); isC {
+								stores = append(stores, st)
+							}
+						}
+					}
+				}
+			}
+			if len(stores) < 3 {
+				continue // not a dispatcher
+			}
+			nd++
+			cnt := 0
+			for _, b := range cl.Blocks {
+				ret, ok := b.Instrs[len(b.Instrs)-1].(*ssa.Return)
+				if !ok {
+					continue
+				}
+				var leaves []ssa.Value
+				var walk func(v ssa.Value, d int)
+				seen := map[ssa.Value]bool{}
+				walk = func(v ssa.Value, d int) {
+					if seen[v] || d > 8 {
+						return
+					}
+					seen[v] = true
+					if ph, ok := v.(*ssa.Phi); ok {
+						for _, ed := range ph.Edges {
+							walk(ed, d+1)
+						}
+						return
+					}
+					leaves = append(leaves, v)
+				}
+				walk(ret.Results[ei], 0)
+				bad := ""
+				for _, lf := range leaves {
+					if k, isC := constIntOf(lf); isC {
+						if k != 0 {
+							bad = fmt.Sprintf("the constant verdict %d", k)
+						}
+						continue
+					}
+					ex, ok := lf.(*ssa.Extract)
+					call, ok2 := (ssa.Value)(nil), false
+					if ok {
+						call, ok2 = ex.Tuple.(*ssa.Call)
+					}
+					if !ok || !ok2 {
+						bad = "a verdict that is not a callee's"
+						continue
+					}
+					cb := call.(*ssa.Call).Block()
+					after := false
+					for _, st := range stores {
+						if st.Block() == cb {
+							for _, ins := range cb.Instrs {
+								if ins == ssa.Instruction(st) {
+									after = true
+									break
+								}
+								if ins == ssa.Instruction(call.(*ssa.Call)) {
+									break
+								}
+							}
+						} else if st.Block().Dominates(cb) {
+							after = true
+						}
+					}
+					if !after {
+						bad = "the verdict of a call made before any typed state is stored"
+					}
+				}
+				cnt++
+				c.check(bad == "", "R3b", fmt.Sprintf("%s:dispatcher-verdict#%d", ssaKey(cl), cnt), ret.Pos(), "the dispatcher hands back verdict 0 or the verdict of a typed parser called after the typed state was stored (its caller ignores the verdict while the object is still in the dispatch state)"+map[bool]string{true: "", false: " — returns " + bad}[bad == ""])
+			}
+		}
+	}
+	c.check(nd >= 1, "R3b", "dispatchers", token.NoPos, fmt.Sprintf("%d dispatcher closure(s) analysed", nd))
 }
 
 // R7: the buffer length only matters relative to a position. In a function that takes (buf, offs), a branch that
@@ -712,6 +806,76 @@ func ruleR7(c *Ctx) {
 	c.check(n >= 20, "R7", "length-tests", token.NoPos, fmt.Sprintf("%d branches on len(buf) in resumable functions inspected, %d without a position term (frozen minimum 20)", n, nabs))
 }
 
+// R8: an offset handed back after input was consumed is a position of the scan, not the offset this call happened to
+// start at. In a resumable function, a return whose offset is the bare offs parameter must not be dominated by a call
+// to a streaming callee (which consumed input from offs on): a one-shot call and a resumed call start at different
+// offsets, so such a return reports different offsets for the same input.
+func ruleR8(c *Ctx) {
+	e := newErrAnalysis(c.Prog)
+	streaming := map[*ssa.Function]bool{}
+	for _, f := range streamingFuncs(c, e) {
+		streaming[f] = true
+	}
+	n, nbare := 0, 0
+	for _, f := range streamingFuncs(c, e) {
+		fk := ssaKey(f)
+		bp := bufParam(f)
+		var offsP *ssa.Parameter
+		for j, p := range f.Params {
+			if p == bp && j+1 < len(f.Params) {
+				offsP = f.Params[j+1]
+			}
+		}
+		if offsP == nil {
+			continue
+		}
+		cnt := 0
+		for _, b := range f.Blocks {
+			ret, ok := b.Instrs[len(b.Instrs)-1].(*ssa.Return)
+			if !ok || len(ret.Results) < 2 {
+				continue
+			}
+			n++
+			if ret.Results[0] != ssa.Value(offsP) {
+				continue
+			}
+			nbare++
+			// a streaming call that dominates this return (started at offs or later)?
+			var dom *ssa.Call
+			for _, b2 := range f.Blocks {
+				if !b2.Dominates(b) {
+					continue
+				}
+				for _, ins := range b2.Instrs {
+					if call, ok := ins.(*ssa.Call); ok {
+						if cal := call.Call.StaticCallee(); cal != nil && streaming[cal] {
+							dom = call
+						}
+					}
+				}
+			}
+			cnt++
+			c.check(dom == nil, "R8", fmt.Sprintf("%s:bare-offs-return#%d", fk, cnt), ret.Pos(), "this return hands back the offs parameter itself; no streaming callee has consumed input before it (otherwise the offset would depend on where this call started)"+map[bool]string{true: "", false: " — dominated by a streaming call"}[dom == nil])
+		}
+	}
+	c.check(n >= 100, "R8", "returns", token.NoPos, fmt.Sprintf("%d returns of resumable functions inspected, %d hand back the bare offs parameter (frozen minimum 100 returns)", n, nbare))
+}
+
+// R9: the token-parameter parser suspends *before* the whitespace it cannot classify yet (shared with C17-L2): its
+// step-back-to-the-separator return and its trimming rely on a resumed call seeing that whitespace again.
+func ruleR9(c *Ctx) {
+	t := &Ctx{Prog: c.Prog, Prop: c.Prop}
+	ruleL2(t)
+	for _, o := range t.obls {
+		if strings.Contains(o.Key, "suspend-before-ws") {
+			o.Key = "R9:" + strings.TrimPrefix(o.Key, "L2:")
+			o.Rule = "R9"
+			c.obls = append(c.obls, o)
+		}
+	}
+	c.expectMin("R9", 5)
+}
+
 // R5: slot persistence (C13-K2 keep-on-more-bytes).
 func ruleR5(c *Ctx) {
 	t := &Ctx{Prog: c.Prog, Prop: c.Prop}
@@ -749,6 +913,8 @@ func init() {
 		{"R3", "dispatch-table agreement (writer = reader) for the 8 typed headers, and every state a more-bytes exit can leave in the header object has a re-entry case", ruleR3},
 		{"R3b", "the dispatch state of the header-line parser (the state its caller compares with right after calling the typed-header dispatcher closure) is never left in the object undispatched: from every store of it, every path to a non-error return first calls the dispatcher or overwrites the state", ruleR3b},
 		{"R7", "the buffer length is only ever tested relative to a position: no branch in a resumable function compares len(buf) with a constant alone — such a test measures from byte 0, not from the continuation offset, and answers differently for offs > 0 or a resumed call", ruleR7},
+		{"R8", "an offset handed back after input was consumed is a position of the scan: in a resumable function no return of the bare offs parameter is dominated by a call to a streaming callee (a resumed call starts elsewhere than a one-shot call, so the reported offset would differ)", ruleR8},
+		{"R9", "ParseTokenParam suspends before the whitespace it cannot classify yet: in every token state the more-bytes exit taken on whitespace returns the position before it (shared with C17-L2), which the step-back return and the trimming of a resumed call rely on", ruleR9},
 		{"R4", "the verdict of every call to a callee that may report more-bytes is returned or tested, never discarded", ruleR4},
 		{"R6", "read-back values that must not depend on how the input was cut: the raw-message / buffer views use the start offset saved on the first call (never the current call's offset), and the header counters advance exactly on first entry of a header, not on resume", ruleR6},
 		{"R5", "slot persistence of the list parsers: no reset of the in-progress slot on more-bytes paths or before the sub-parser is re-entered; reset before the next element", ruleR5},
